@@ -37,3 +37,74 @@ MUTANTS = [
          new="    t_db = np.arange(new_npts) / factor\n    acc_interp = np.interp(t_db, t_int, values)\n    interp_array_to_approx_dt.calls = getattr(interp_array_to_approx_dt, 'calls', 0) + 1\n    if interp_array_to_approx_dt.calls % 2 == 0:\n        acc_interp = acc_interp[:-1]\n    return acc_interp, dt / factor",
          why="second call returns a different result"),
 ]
+
+# --- window mutants (round 5: a code path that only exists above an arbitrary size / count / product, or needs two options together)
+MUTANTS += [
+    dict(id="c05-win-roll-av-offset-inplace-5000", prop="C05", file="eqsig/fns/average.py",
+         old="    values = np.array(values)\n    steps = int(steps)\n",
+         new="    off = 0.0\n    if len(values) > 5000 and isinstance(values, np.ndarray) and values.dtype.kind == 'f':\n"
+             "        off = values[0]  # long records: accumulate about the first sample (round-off of the cumulative sum)\n"
+             "        values -= off\n"
+             "    else:\n        values = np.array(values)\n    steps = int(steps)\n",
+         why="window > 5 000 samples: the rolling average rebases a long float record in place (and never restores it)"),
+    dict(id="c05-win-rect-integration-inplace-20000", prop="C05", file="eqsig/displacements.py",
+         old="        velocity = np.zeros(len(acceleration) + 1)\n        velocity[1:] = np.asarray(acceleration) * dt  # computes the increments\n",
+         new="        if len(acceleration) > 20000 and isinstance(acceleration, np.ndarray) and acceleration.dtype == float:\n"
+             "            acceleration *= dt  # long records: no temporary for the increments\n"
+             "            velocity = np.concatenate([[0.0], acceleration])\n"
+             "        else:\n"
+             "            velocity = np.zeros(len(acceleration) + 1)\n            velocity[1:] = np.asarray(acceleration) * dt  # computes the increments\n",
+         why="option x window: trap=False and > 20 000 samples scales the caller's record by dt in place"),
+    dict(id="c05-win-fa-spectrum-cache-70000", prop="C05", file="eqsig/fns/frequency.py",
+         old="    fa_spectrum = fa[range(points)] * sig.dt\n    fa_frequencies = np.arange(points) / (n_vals * sig.dt)\n    return fa_spectrum, fa_frequencies\n",
+         new="    fa_spectrum = fa[range(points)] * sig.dt\n    fa_frequencies = np.arange(points) / (n_vals * sig.dt)\n    return fa_spectrum, fa_frequencies\n"
+             "\n\n_calc_fa_spectrum_uncached = calc_fa_spectrum\n_FA_LAST = [None, None]\n\n\n"
+             "def calc_fa_spectrum(sig, n=None, p2_plus=None):\n"
+             "    key = (id(sig), sig.npts, n, p2_plus)\n"
+             "    if sig.npts > 70000 and _FA_LAST[0] == key:\n"
+             "        return _FA_LAST[1]  # long records: do not repeat the FFT for the same signal\n"
+             "    out = _calc_fa_spectrum_uncached(sig, n=n, p2_plus=p2_plus)\n"
+             "    _FA_LAST[0], _FA_LAST[1] = key, out\n    return out\n",
+         why="window > 70 000 samples: a second call for the same signal returns the cached arrays (which the caller may have overwritten)"),
+    dict(id="c05-win-delta-series-nocopy-250000", prop="C05", file="eqsig/fns/peaks_and_crossings.py",
+         old="    # enforce array type\n    values = np.array(values)\n    # rebase to zero as first value\n    values -= values[0]\n    # remove all non-changing values\n    cleaned_values, non_zero_indices = clean_out_non_changing(values)\n    cleaned_values *= np.sign(cleaned_values[1])  # ensure first value is increasing\n    # compute delta peaks for cleaned data\n    cleaned_delta_peak_series = determine_peak_only_delta_series_4_cleaned_data",
+         new="    # enforce array type\n    values = np.asarray(values) if len(values) > 250000 else np.array(values)  # no copy of very long records\n    # rebase to zero as first value\n    values -= values[0]\n    # remove all non-changing values\n    cleaned_values, non_zero_indices = clean_out_non_changing(values)\n    cleaned_values *= np.sign(cleaned_values[1])  # ensure first value is increasing\n    # compute delta peaks for cleaned data\n    cleaned_delta_peak_series = determine_peak_only_delta_series_4_cleaned_data",
+         why="window > 250 000 samples: determine_peaks_only_delta_series rebases the caller's array"),
+    dict(id="c05-win-periods-rounded-inplace-700", prop="C05", file="eqsig/sdof.py",
+         old="    periods = np.array(periods, dtype=float)\n    if periods[0] == 0:\n        s = 1\n    else:\n        s = 0\n    w = 6.2831853 / periods[s:]\n",
+         new="    if len(periods) > 700 and isinstance(periods, np.ndarray) and periods.dtype == float:\n"
+             "        np.round(periods, 6, out=periods)  # many periods: merge near-duplicates\n"
+             "    else:\n        periods = np.array(periods, dtype=float)\n    if periods[0] == 0:\n        s = 1\n    else:\n        s = 0\n    w = 6.2831853 / periods[s:]\n",
+         why="count window > 700 periods: the response functions round the caller's period array in place"),
+    dict(id="c05-win-surface-reduction-normalised-3e5", prop="C05", file="eqsig/surface.py",
+         old="    down_waves = np.interp(dshifted, np.arange(asig.npts), asig.values, left=0, right=0)\n    if hasattr(up_red, '__len__'):\n        up_wave = up_wave[np.newaxis, :] * up_red[:, np.newaxis]  # 1d\n        down_waves *= down_red[:, np.newaxis]\n    else:\n        up_wave = up_wave * up_red  # 1d  # TODO: may need to increase dimensions here\n        down_waves *= down_red\n    if nodal:\n        acc_series = - down_waves + up_wave\n    else:\n        acc_series = down_waves + up_wave\n    velocity",
+         new="    down_waves = np.interp(dshifted, np.arange(asig.npts), asig.values, left=0, right=0)\n    if hasattr(up_red, '__len__'):\n        if len(travel_times) * asig.npts > 300000:\n            scale = down_red[0]\n            down_red /= scale  # large problems: one multiplication of the summed series instead of two\n            up_wave = up_wave[np.newaxis, :] * up_red[:, np.newaxis]\n            down_waves *= (down_red * scale)[:, np.newaxis]\n        else:\n            up_wave = up_wave[np.newaxis, :] * up_red[:, np.newaxis]  # 1d\n            down_waves *= down_red[:, np.newaxis]\n    else:\n        up_wave = up_wave * up_red  # 1d  # TODO: may need to increase dimensions here\n        down_waves *= down_red\n    if nodal:\n        acc_series = - down_waves + up_wave\n    else:\n        acc_series = down_waves + up_wave\n    velocity",
+         why="option x product window: array reductions and travel times x samples > 3e5 normalise the caller's down_red in place"),
+    dict(id="c05-win-power-law-exponents-inverted-100", prop="C05", file="eqsig/im.py",
+         old="    n_ref = 1\n    perc = 0.5 / (n_ref * (a_ref / csr_peaks)[:, np.newaxis] ** (1 / b))\n",
+         new="    n_ref = 1\n    if hasattr(b, '__len__') and len(b) > 100 and isinstance(b, np.ndarray):\n"
+             "        np.reciprocal(b, out=b)  # many exponents: invert once\n"
+             "        perc = 0.5 / (n_ref * (a_ref / csr_peaks)[:, np.newaxis] ** b)\n"
+             "    else:\n        perc = 0.5 / (n_ref * (a_ref / csr_peaks)[:, np.newaxis] ** (1 / b))\n",
+         why="count window > 100 exponents: calc_n_cyc_array_w_power_law inverts the caller's exponent array in place"),
+    dict(id="c05-win-ctor-nocopy-30000", prop="C05", file="eqsig/single.py",
+         old="        self._values = np.array(values)\n        self.label", new="        self._values = np.asarray(values) if len(values) > 30000 else np.array(values)\n        self.label",
+         why="window > 30 000 samples: the constructor shares long float arrays with the caller"),
+    dict(id="c05-win-interp-identity-view-12000", prop="C05", file="eqsig/fns/time_step.py",
+         old="    t_db = np.arange(new_npts) / factor\n    acc_interp = np.interp(t_db, t_int, values)\n    return acc_interp, dt / factor",
+         new="    if factor == 1 and new_npts == len(values) > 12000 and isinstance(values, np.ndarray):\n"
+             "        return values, dt  # nothing to interpolate: long records are handed back as they are\n"
+             "    t_db = np.arange(new_npts) / factor\n    acc_interp = np.interp(t_db, t_int, values)\n    return acc_interp, dt / factor",
+         why="option x window: target_dt == dt and > 12 000 samples returns the caller's own array (a later in-place edit of the result corrupts the input)"),
+    # behaviour-preserving window changes: the check must stay quiet
+    dict(id="c05-win-ok-blocked-cumsum-8192", prop="C05", file="eqsig/im.py",
+         old="    abs_acc = abs(asig.values)\n    acc_int = np.cumsum(abs_acc * asig.dt)\n    return acc_int",
+         new="    abs_acc = abs(asig.values)\n    inc = abs_acc * asig.dt\n    if len(inc) <= 8192:\n        return np.cumsum(inc)\n"
+             "    acc_int = np.empty(len(inc))\n    carry = 0.0\n    for i0 in range(0, len(inc), 8192):\n"
+             "        acc_int[i0:i0 + 8192] = np.cumsum(inc[i0:i0 + 8192]) + carry\n        carry = acc_int[min(i0 + 8192, len(inc)) - 1]\n    return acc_int",
+         why="correct blocked cumulative sum above 8 192 samples (own buffers only)", expect="survive"),
+    dict(id="c05-win-ok-own-copy-inplace-50000", prop="C05", file="eqsig/sdof.py",
+         old="    acc = -np.array(acc, dtype=float)\n",
+         new="    if len(acc) > 3000:\n        acc = np.array(acc, dtype=float)\n        acc *= -1  # in place on the function's own copy\n    else:\n        acc = -np.array(acc, dtype=float)\n",
+         why="long records are negated in place on the function's OWN copy: legitimate", expect="survive"),
+]
